@@ -877,8 +877,8 @@ class Interp:
         if isinstance(base, ExtV):
             return ExtV(base.dotted + "." + attr)
         if isinstance(base, ClassV):
-            if attr == "__new__":
-                return Bound(base, "__new__")
+            if attr in ("__new__", "_make") and self.prog.find_method(base.cls, attr) is None:
+                return Bound(base, attr)
             meth = self.prog.find_method(base.cls, attr)
             if meth:
                 return FuncV(meth) if (meth.is_static) else Bound(base, attr, meth)
